@@ -247,7 +247,8 @@ def random_case(rng, size='small', folders=None, comp=None, parts=None, embed=No
             blob += junk + c['files'][c['meta']['order'][0]]; sub.append(c['meta'])
         blob += rng.randbytes(rng.choice([0, 0, 7, 40]))
         return {'kind': 'cab', 'files': {'blob.bin': blob}, 'members': members,
-                'meta': {'open': 'search', 'order': ['blob.bin'], 'embedded': len(sub), 'hidden_by_find_defect': hidden, 'sub': sub}}
+                'meta': {'open': 'search', 'order': ['blob.bin'], 'embedded': len(sub), 'hidden_by_find_defect': hidden, 'sub': sub,
+                         'quirks': [q for sm in sub for q in sm.get('quirks', [])]}}
     nf = folders or rng.choice([1, 1, 2, 3]); total = pick_size(rng, size)
     bounds = sorted(rng.randint(0, total) for _ in range(nf - 1)); sizes = [b - a for a, b in zip([0] + bounds, bounds + [total])]
     lf = []; files = []; members = []; used = set(); fmeta = []; quirks = []
